@@ -178,7 +178,7 @@ def pull : Nat → Parser → Parser × PullRes
         let (r, sent) := esccpy (stashSize - six) b
         let stash' := match r with | some o => p.stash ++ o | none => p.stash
         let sent := match r with | some _ => 0 | none => sent
-        ({ p with stash := stash', sentinel := sent, eolp := p.eolp || eol.isSome }, .need)
+        ({ p with stash := stash', sentinel := sent, eolp := p.eolp || eol.isSome, bix := p.buf.length }, .need)   -- `BI = p->bsz`: the buffer is used up
       else
         let llen := eol.getD 0
         let (r, sent) := esccpy (stashSize - six) (b.take llen)
@@ -263,7 +263,10 @@ def feed (chunks : List (List Byte)) : List Instr × List (List Byte) :=
   | some q =>
     let (q, r) := pullEv (q.buf.length + 2) q
     match r with
-    | .ve ls => (if verbOf q.comp.meth ls == "S" then ins ++ [{ verb := "L", lines := ls }] else ins, q.log)
+    | .ve ls =>
+      -- `echs_evical_last_pull` hands back whatever the pull gives: L (a task), LU (cancel), LR (reply)
+      let v := verbOf q.comp.meth ls
+      (ins ++ [{ verb := if v == "S" then "L" else "L" ++ v, lines := ls }], q.log)
     | _ => (ins, q.log)
 
 end Echse.Ical
